@@ -2,6 +2,7 @@ package redisemu
 
 import (
 	"fmt"
+	"sync/atomic"
 )
 
 type (
@@ -42,7 +43,7 @@ type (
 	}
 )
 
-var signals int
+var signals atomic.Int64
 
 func newWaitTable() *waitTable {
 	return &waitTable{
@@ -53,10 +54,10 @@ func newWaitTable() *waitTable {
 // creates a wake signal object, one-to-one mapping to a client
 // (two clients cannot wait on the same wake signal)
 func newWakeSignal() *wakeSignal {
-	signals++
+	// (wake signals are created by blocking commands of every database and emulator: the counter is shared)
 	ws := &wakeSignal{
 		ready: make(chan struct{}, 1),
-		id:    signals,
+		id:    int(signals.Add(1)),
 	}
 	return ws
 }
